@@ -3,7 +3,7 @@
 From Coq Require Import ZArith List.
 From Coq Require Import Floats.PrimFloat.
 From Sketchnu Require Import Machine CmsLinear CmsLinearProofs.
-From Sketchnu Require CmsLog CmsLogProofs.
+From Sketchnu Require CmsLog CmsLogProofs CmsLogFloat.
 Import ListNotations.
 Open Scope Z_scope.
 
@@ -95,3 +95,30 @@ Theorem C09_log_nearest_grid : forall nr umax max_count decode castc,
   (abs (decode (merge_cell nr umax max_count decode castc a b) - v) <=? abs (decode c - v))%float = true.
 Proof. exact CmsLogProofs.merge_nearest_grid_sound. Qed.
 Print Assumptions C09_log_nearest_grid.
+
+(* general float-level facts (CmsLogFloat.v: standard-library FloatAxioms / Uint63 axioms and, through Flocq's
+   PrimFloat bridge, the real-number axioms), for EVERY table, not per configuration *)
+Theorem C09_log_comm : forall nr umax max_count decode castc (a b : Z),
+  merge_cell nr umax max_count decode castc a b = merge_cell nr umax max_count decode castc b a.
+Proof. exact CmsLogFloat.C09_log_comm. Qed.
+Print Assumptions C09_log_comm.
+
+Theorem C09_log_reserved : forall nr umax max_count decode castc,
+  0 <= nr < 2^52 -> (forall c, 0 <= c <= nr -> decode c = z2f c) ->
+  forall a b : Z, 0 <= a -> 0 <= b -> a + b <= nr ->
+  merge_cell nr umax max_count decode castc a b = castc (a + b).
+Proof. exact CmsLogFloat.C09_log_reserved. Qed.
+Print Assumptions C09_log_reserved.
+
+(* a LINEAR-size boolean check of the decode table (finite values, identity on the reserved range, strictly
+   increasing, sane ceiling) implies for all (umax+1)^2 pairs: never below either input, within range, at least
+   min(a+b, nr+1), exact sum in the reserved range - this covers log16 configurations too *)
+Theorem C09_log_tables_sound : forall nr umax max_count decode castc,
+  (forall x, 0 <= x <= umax -> castc x = x) ->
+  CmsLog.float_tables_ok_b nr umax max_count decode = true ->
+  0 <= nr < umax /\ umax < 2^16 /\
+  CmsLogProofs.merge_ge_ok nr umax max_count decode castc /\
+  CmsLogProofs.merge_lower_ok nr umax max_count decode castc /\
+  (forall a b, 0 <= a <= umax -> 0 <= b <= umax -> a + b <= nr -> merge_cell nr umax max_count decode castc a b = a + b).
+Proof. exact CmsLogFloat.float_tables_sound. Qed.
+Print Assumptions C09_log_tables_sound.
